@@ -1070,7 +1070,7 @@ def obligations(prop, tier):
     if prop == "C11":
         out.append(CardinalityMapping(True))
         out.append(CardinalityMapping(False))
-    if prop == "C10":
+    if prop in ("C10", "C01"):      # the node set behind a shape (C10) is what the instance count and every figure are computed over (C01)
         for n in (1, 2):
             for rep in (False, True):
                 out.append(ShapeMapTrackerStep(n, rep))
@@ -1079,6 +1079,7 @@ def obligations(prop, tier):
         for n_ref, n_new in ((1, 1), (2, 1), (2, 2)) + (((3, 2),) if tier != "quick" else ()):
             for clash in (False, True):
                 out.append(MixedTrackerMerge(n_ref, n_new, clash))
+    if prop == "C10":
         for mode in ("targets", "all"):   # AllClasses+TargetClasses cannot be configured together (C20); compound = all classes + qualifiers/shape map
             for inst in (RDF_TYPE, "http://ex.org/isa", "http://www.wikidata.org/prop/direct/P31"):
                 for okind in ("iri", "bnode"):
